@@ -20,12 +20,14 @@ HARNESS = {
             'call': 'check_c09(&buf[..len], idx, little)', 'unwind': 6},
     'c09_len': {'args': [('buf', 'u8x24'), ('len', 'usize'), ('little', 'bool')], 'bound': 'table <= 24 bytes (u32 entries and Rel/ELF32 entries)', 'assume': 'len <= 24',
                 'call': 'check_c09_len(&buf[..len], little)', 'unwind': 2},
-    'c14': {'args': [('buf', 'u8x40'), ('len', 'usize'), ('align_sel', 'u8'), ('elf64', 'bool'), ('little', 'bool')], 'bound': 'note bytes <= 40, alignment in {0,1,2,3,4,8,16}, first two notes',
-            'assume': 'len <= 40', 'call': 'check_c14(&buf[..len], align_sel, elf64, little)', 'unwind': 42},
-    'c03_range': {'args': [('off', 'u64'), ('size', 'u64'), ('memsz', 'u64'), ('nobits', 'bool')], 'bound': 'one 80-byte ELF64/LE file; all offsets, sizes, p_memsz', 'assume': 'true',
-                  'call': 'check_c03_range(off, size, memsz, nobits)', 'unwind': 82},
-    'c13_iter': {'args': [('buf', 'u8x56'), ('len', 'usize'), ('count', 'u8'), ('start', 'u8'), ('little', 'bool'), ('defs', 'bool')], 'bound': 'section bytes <= 56, count and start offset < 256, first three records',
-                 'assume': 'len <= 56', 'call': 'check_c13_iter(&buf[..len], count, start, little, defs)', 'unwind': 10},
+    'c14': {'args': [('buf', 'u8x32'), ('len', 'usize'), ('align_sel', 'u8'), ('elf64', 'bool'), ('little', 'bool')], 'bound': 'note bytes <= 32, alignment in {0,1,2,3,4,8,16}, first two notes',
+            'assume': 'len <= 32', 'call': 'check_c14(&buf[..len], align_sel, elf64, little)', 'unwind': 9},
+    'c03_range': {'args': [('off', 'u64'), ('size', 'u64'), ('memsz', 'u64'), ('nobits', 'bool')], 'bound': 'one 60-byte ELF32/LE file; all offsets, sizes, p_memsz', 'assume': 'true',
+                  'call': 'check_c03_range(off, size, memsz, nobits)', 'unwind': 9},
+    'c13_need': {'args': [('buf', 'u8x40'), ('len', 'usize'), ('count', 'u8'), ('start', 'u8'), ('little', 'bool')], 'bound': 'section bytes <= 40, count and start offset < 256, first two records',
+                 'assume': 'len <= 40', 'call': 'check_c13_iter(&buf[..len], count, start, little, false)', 'unwind': 8},
+    'c13_def': {'args': [('buf', 'u8x40'), ('len', 'usize'), ('count', 'u8'), ('start', 'u8'), ('little', 'bool')], 'bound': 'section bytes <= 40, count and start offset < 256, first two records',
+                'assume': 'len <= 40', 'call': 'check_c13_iter(&buf[..len], count, start, little, true)', 'unwind': 8},
     'c10': {'args': [('ident', 'u8x16')], 'bound': 'none (all 16-byte idents)', 'assume': 'true', 'call': 'check_c10(&ident)', 'unwind': 6},
     'hash': {'args': [('buf', 'u8x5'), ('len', 'usize')], 'bound': 'name <= 5 bytes', 'assume': 'len <= 5', 'call': 'check_hash(&buf[..len])', 'unwind': 7},
 }
@@ -187,7 +189,8 @@ PAIRING = [
     (r'^(C12\.sysv_hash|C11\.gnu_hash|proof:hash::sysv_hash|proof:hash::gnu_hash)', lambda m: 'hash'),
     (r'^C14\.(note|iter)\.', lambda m: 'c14'),
     (r'^C03\.(section_range|segment_range|section_data|segment_data)\.', lambda m: 'c03_range'),
-    (r'^C1[36]\.(VerNeedIterator|VerDefIterator)\.next\.', lambda m: 'c13_iter'),
+    (r'^C1[36]\.VerNeedIterator\.next\.', lambda m: 'c13_need'),
+    (r'^C1[36]\.VerDefIterator\.next\.', lambda m: 'c13_def'),
     (r'^C02\.parse_at\.[a-z_]+@ParseAt for (\w+)::parse_at$', lambda m: 'c02_' + m.group(1).lower()),
     (r'^C02\.size_for@ParseAt for (\w+)::size_for$', lambda m: 'c02_' + m.group(1).lower()),
 ]
